@@ -88,6 +88,13 @@ func RefEntries(h *scen.History, ref string) []RefEntry {
 // the content of the last unskipped entry before it, and everything in between
 // is skipped too.
 func EvalRef(h *scen.History, ref string) Verdict {
+	return EvalRefFrom(h, ref, -1)
+}
+
+// EvalRefFrom is EvalRef for a verification that starts at the entry recorded
+// by event startEvent (inclusive) instead of the first entry of the ref. The
+// search for the last good state may still look before the start.
+func EvalRefFrom(h *scen.History, ref string, startEvent int) Verdict {
 	es := RefEntries(h, ref)
 	v := Verdict{Entries: es, TipEvent: -1}
 	if len(es) == 0 {
@@ -97,6 +104,19 @@ func EvalRef(h *scen.History, ref string) Verdict {
 	v.TipEvent = es[len(es)-1].Event
 	v.Judged = true
 	i := 0
+	if startEvent >= 0 {
+		i = -1
+		for j := range es {
+			if es[j].Event == startEvent {
+				i = j
+			}
+		}
+		if i < 0 {
+			v.Judged = false
+			v.Reason = "start event is not an entry of the ref"
+			return v
+		}
+	}
 	for i < len(es) {
 		e := es[i]
 		if e.Kind == "propagation" {
